@@ -336,6 +336,20 @@ func gen(g *core.G) {
 			}
 		}
 	}
+	// keys of every kind in a definition's init hash: `Object[{…}]` looks its parent up in the hash while parsing, which
+	// computes the hash key of every key — an unresolved type name or a call (also inside an array / a hash) is not one
+	defKeys := []string{"a", "'a'", "1", "1.5", "true", "undef", "default", "/x/", "[a]", "{a => 1}", "A", "A::B", "A[1]", "[A]", "[a, [B]]", "{a => B}", "{B => a}", "Foo(1)", "[Foo(1)]",
+		"Deferred(x)", "Integer", "Optional[a]"}
+	for _, k := range defKeys {
+		for _, kind := range []string{"Object", "TypeSet"} {
+			for _, t := range defForms(kind, k+" => 1") {
+				emit(g, t)
+			}
+			for _, t := range defForms(kind, "a => 1, "+k+" => {b => "+k+"}") {
+				emit(g, t)
+			}
+		}
+	}
 	for i := 0; i < 300*g.Scale; i++ { // two and three entries at once
 		kind, keys, base := "Object", objKeys, ""
 		if g.Rng.Intn(3) == 0 {
